@@ -86,7 +86,7 @@ def local_alias_is_enumerable(node: ast.AST, par: Any, parents: Dict[ast.AST, as
 
 def run(prog: Program, rep: Report, tier: str) -> None:
     from ..api_model import sign_summary_premise
-    sign_summary_premise(prog, rep)
+    sign_summary_premise(prog, rep, claims_signature=True)
     rep.rule("R1.1", "sole writer: the only operations on the stream writer are write/close/wait_closed, no other send primitive exists in the package, and every written value is unhexlify(sign(p))", 14 + 12)
     rep.rule("R1.2", "the signature atom covers exactly all preceding nibbles of the written frame", 14)
     rep.rule("R1.3", "nibbles 0-3 are the literal fef0 and nibbles 76-79 the literal f0fe (all fields before nibble 80 have constant width)", 14)
